@@ -304,8 +304,10 @@ func main() {
 	kit.Silence()
 	r := vh.NewRun("C14", "exploration")
 	serverDifferential(r, r.Pick(0, 1))
+	generatedDifferential(r, r.Pick(12, 3000))
 	clientDifferential(r)
-	r.Finish("server part: the C03 request generator restricted to the 8 methods every transport serves (valid requests, params and each parameter removed / retyped to every JSON type / extra members, string and integer ids), byte-identical requests sent to Streamable {JSON, SSE, stateless JSON, stateless SSE, sessions disabled}, legacy SSE and stdio servers with identical registrations; answers normalised (listed items sorted, error wording dropped, session ids blanked) and compared against the first kind. Client part: 19 operations (values, isError, nil content, handler errors, unencodable results, unknown names) through the Streamable client (JSON, SSE, stateless), the legacy SSE client and the stdio client; returned values compared as JSON, errors by class and code. Distinct = (part, request class / operation, answer class / client) that agreed.",
+	generatedClients(r, r.Pick(6, 150))
+	r.Finish("generated part: 12 (quick) / 3000 (thorough) registries drawn from the PRNG (0-5 tools with 0-3 arguments of every JSON type, required or not, with and without descriptions and annotations, 11 handler outcomes incl. Go error, isError, nil content, image / audio / embedded resource / mixed content, empty text, unencodable; 0-3 prompts with arguments and 6 outcomes; 0-3 resources with text / blob / empty / failing / multi-content handlers; registry #0 is empty) registered identically on the seven configurations; one scripted sequence per registry (handshake, ping, the three lists, per tool 9 argument shapes, per prompt 5, per resource 2, unknown names, then registry changes while serving — unregister, register again differently, first late entries — each followed by lists and calls, then a second handshake on a new connection) replayed on each; step i compared across configurations. Server part: the C03 request generator restricted to the 8 methods every transport serves (valid requests, params and each parameter removed / retyped to every JSON type / extra members, string and integer ids), byte-identical requests sent to Streamable {JSON, SSE, stateless JSON, stateless SSE, sessions disabled}, legacy SSE and stdio servers with identical registrations; answers normalised (listed items sorted, error wording dropped, session ids blanked) and compared against the first kind. Client part: 19 operations (values, isError, nil content, handler errors, unencodable results, unknown names) through the Streamable client (JSON, SSE, stateless), the legacy SSE client and the stdio client; returned values compared as JSON, errors by class and code. The client part is repeated over 6 / 150 generated registries (lists, every tool with typed / nil / empty arguments, every prompt, every resource). Distinct = (part, request class / operation, answer class / client) that agreed.",
 		[]string{"client part compares the clients against real servers with the same fixture (whose equal answers are established by the server part) instead of replaying one scripted answer",
 			"error message wording and the order of listed items are outside the statement"})
 }
